@@ -44,13 +44,13 @@ def pair_obligations(pid, specs, tier="quick"):
             fn1, _ = Source.get(c1.file).find(c1.func)
             fn2, _ = Source.get(c2.file).find(c2.func)
             I.cur_line = fn1.lineno
-            r1 = I.apply_contract(c1, fn1, obj,
+            r1 = I.apply_contract(c1, fn1, obj if c1.cls else None,
                                   [I.eval_spec(a, env) for a in sp["args1"]],
                                   {})
             env["r1"] = r1
             I.cur_line = fn2.lineno
             I.old_env = env0
-            r2 = I.apply_contract(c2, fn2, obj,
+            r2 = I.apply_contract(c2, fn2, obj if c2.cls else None,
                                   [I.eval_spec(a, env) for a in sp["args2"]],
                                   {})
             env["r2"] = r2
